@@ -52,6 +52,7 @@ EXTRA_OPS = [
     ("delete_file", "request", "nosuch", F, None),
     ("file_verb", "action", "nosuch", F, "scan"),
     ("access", "action", D, "nosuch.txt", None),
+    ("power", None, None, None, None),
 ]
 ALL_OPS = OPS + EXTRA_OPS
 REDUCED = [0, 2, 4, 5, 7, 8, 10, 15, 16, 6]
@@ -244,6 +245,16 @@ class FSMonitor:
             self.cov.inc("counter_reset_checks")
             self.check(("pre_timestep",))
             return
+        if kind == "power":
+            # node power event (durations 0: immediate). The file system of a node that is off is still a file system: its structure and
+            # its per-tick bookkeeping must stay consistent, and requests are simply refused meanwhile
+            on = self.node.operating_state.name == "ON"
+            self.node.config.shut_down_duration = 0
+            self.node.config.start_up_duration = 0
+            self.node.apply_request(["shutdown" if on else "startup"])
+            self.cov.hit("power_events", "shutdown" if on else "startup")
+            self.check(("power",))
+            return
         pre = self.pre_state(fo, fi) if fo else None
         req = op_request(op)
         assert req[:3] == ["network", "node", "pc"], req
@@ -262,6 +273,14 @@ class FSMonitor:
         cls = ("L" if pre["folder_live"] else "D" if pre["folder_deleted"] else "-") + \
               ("L" if pre["file_live"] else "D" if pre["file_deleted"] else "-")
         self.cov.hit("op_x_prestate", f"{kind}|{cls}")
+        if self.node.operating_state.name != "ON":
+            # the node is off: the request is refused by the node's own rule and must change nothing (the structural invariants below
+            # are still evaluated); the transition oracle is about requests that reach the file system
+            self.cov.inc("requests_while_node_off")
+            if status == "success" or post != pre:
+                self.v(f"request-takes-effect-on-powered-off-node@{kind}", f"{req}: node is {self.node.operating_state.name} but status={status}, pre={pre} post={post}")
+            self.check(op)
+            return
         # transition oracle: only what the statement says explicitly
         if kind in ("delete_file", "folder_delete_file"):
             if pre["file_live"]:
